@@ -361,7 +361,7 @@ func (m *Machine) sliceOp(fr *frame, x *ssa.Slice) Val {
 		mxv = *mx
 	}
 	m.rtOblige(And(And(sle(CI(64, 0), l), sle(l, h)), And(sle(h, mxv), sle(mxv, s.Cap))), "slice-bounds-out-of-range")
-	if structured(s.B) && s.B.Cap.IsC() {
+	if structured(s.B) && s.B.Cap.IsC() && !m.keepSymBounds {
 		// symbolic offsets into structured buffers are case-split (cheap concrete paths instead of
 		// symbolic-index selects over long store chains)
 		if !l.IsC() {
@@ -527,9 +527,18 @@ func (m *Machine) appendOp(args []Val, cc *ssa.CallCommon) Val {
 		nl := dl.C + sl.C
 		out := dst
 		if dst.B == nil || !dst.Cap.IsC() || nl > dst.Cap.C {
-			nc := nl * 2
+			oldCap := uint64(0)
+			if dst.B != nil && dst.Cap.IsC() {
+				oldCap = dst.Cap.C
+			}
+			nc := nextSliceCap(nl, oldCap)
 			if nc < 8 {
 				nc = 8
+			}
+			if m.allocBudget != nil {
+				// growth by append allocates at least the capacity computed by the runtime's growth rule
+				// (size-class rounding can only add to it)
+				m.ex.Oblige(sle(CI(64, nc), *m.allocBudget), "alloc-not-backed-by-input (append) in "+m.curFn())
 			}
 			nb := newByteArr(CI(64, nc))
 			out = Slice{B: nb, Off: CI(64, 0), Len: CI(64, nl), Cap: CI(64, nc)}
@@ -707,4 +716,24 @@ func (m *Machine) nextRuneSym(it *Iter) Val {
 		}
 	}
 	return done(CI(32, 0xFFFD), 1)
+}
+
+// nextSliceCap is runtime.nextslicecap (Go 1.20+) without the size-class rounding.
+func nextSliceCap(newLen, oldCap uint64) uint64 {
+	doublecap := oldCap + oldCap
+	if newLen > doublecap {
+		return newLen
+	}
+	const threshold = 256
+	if oldCap < threshold {
+		return doublecap
+	}
+	newcap := oldCap
+	for {
+		newcap += (newcap + 3*threshold) >> 2
+		if newcap >= newLen {
+			break
+		}
+	}
+	return newcap
 }
